@@ -387,6 +387,105 @@ theorem C06_handshake_model_verdict_ok (aesni : Bool) (raw : List Cfg) (sni : By
               | _ => rfl
   · simp [hdom]
 
+/-- SNI = Host = one name, consistent TLS site set whose `TLS.Hostname`s are the sites' normalised
+hosts: if the site that serves the request demands client certificates, the handshake was
+governed by a config with the same client-certificate policy (its own, or one stored under the
+same SNI key and therefore checked compatible).  `_partial`: proved for sites found directly by
+name (exact or wildcard) or declared as one of the catch-all hosts; what is excluded — sites that
+only the vhost fallback wildcarding reaches (`*`, `*.*.*.*`, …) and plugin-designated fallback
+sites — is exactly the class of `C06_clientauth_bypass_fails_witness`. -/
+theorem C06_handshake_config_is_sites_config_partial (aesni : Bool) (sites : List Casket.VHost.Site)
+    (cfgs : List Cfg) (name path : Bytes)
+    (hh : cfgs.map (·.hostname) = sites.map (fun s => (Casket.VHost.keyOf s).1))
+    (hdomT : inDomain cfgs = true) (hen : cfgs.all (·.enabled) = true) (hca : caMissing cfgs = false)
+    (hconf : conflicting aesni cfgs = false)
+    (hdomV : Casket.VHostSpec.inDomain sites ⟨name, path, 1⟩ = true)
+    (hname : normalizedName name = Casket.VHostSpec.normHost name)
+    (hna : mapKey (Casket.VHostSpec.normHost name) ≠ [])
+    (hdirect : ∀ c k, Casket.VHostSpec.chosenKey sites ⟨name, path, 1⟩ = some (c, k) →
+      c ∈ hostCands (Casket.VHostSpec.normHost name) ∨ mapKey c = []) :
+    crossVerdict cfgs (connect aesni sites cfgs name path) = "ok" := by
+  -- what the request gets does not depend on the selection, except through `sni`
+  have served : ∀ (sni : Option Bytes) (i : Nat), serveTLS sites cfgs ⟨name, path, 1⟩ sni = .site i →
+      Casket.VHostSpec.specRoute sites ⟨name, path, 1⟩ = .site i
+        (match Casket.VHostSpec.specRoute sites ⟨name, path, 1⟩ with | .site _ p => p | _ => []) := by
+    intro sni i hs
+    unfold serveTLS at hs
+    rw [Casket.VHost.route_eq_spec sites _ hdomV] at hs
+    cases hr : Casket.VHostSpec.specRoute sites ⟨name, path, 1⟩ with
+    | notFound st => rw [hr] at hs; cases hs
+    | site j p =>
+      rw [hr] at hs
+      simp only [] at hs
+      cases hcj : cfgs[j]? with
+      | none => rw [hcj] at hs; simp only [Served.site.injEq] at hs; subst hs; rfl
+      | some c' =>
+        rw [hcj] at hs
+        simp only [] at hs
+        split at hs
+        · cases hs
+        · simp only [Served.site.injEq] at hs; subst hs; rfl
+  unfold crossVerdict
+  cases hcon : connect aesni sites cfgs name path with
+  | mk sel sv =>
+    simp only []
+    cases sv with
+    | forbidden => rfl
+    | notFound st => rfl
+    | site i =>
+      simp only []
+      cases hci : cfgs[i]? with
+      | none => rfl
+      | some c =>
+        simp only []
+        by_cases hoff : (c.clientAuth == 0 || c.disableSNIMatching) = true
+        · simp [hoff]
+        · simp only [hoff, if_false, Bool.false_eq_true]
+          have hauth : c.clientAuth ≠ 0 := by
+            intro h; apply hoff; simp [h]
+          have hne : cfgs ≠ [] := by intro h; rw [h] at hci; simp at hci
+          -- which serveTLS call produced `site i`
+          unfold connect at hcon
+          have hsv : ∃ sni, serveTLS sites cfgs ⟨name, path, 1⟩ sni = .site i ∧ sel = pipeline aesni cfgs name none := by
+            cases hp : pipeline aesni cfgs name none with
+            | error n => rw [hp] at hcon; simp at hcon
+            | plain => rw [hp] at hcon; simp only [Prod.mk.injEq] at hcon; exact ⟨none, hcon.2, hcon.1.symm⟩
+            | nothing => rw [hp] at hcon; simp only [Prod.mk.injEq] at hcon; exact ⟨some name, hcon.2, hcon.1.symm⟩
+            | any => rw [hp] at hcon; simp only [Prod.mk.injEq] at hcon; exact ⟨some name, hcon.2, hcon.1.symm⟩
+            | cfg j b => rw [hp] at hcon; simp only [Prod.mk.injEq] at hcon; exact ⟨some name, hcon.2, hcon.1.symm⟩
+          obtain ⟨sni, hs, hsel⟩ := hsv
+          obtain ⟨c', j, d, hc', hw, hd, hk⟩ := wanted_of_route hh (served sni i hs) hname hna hdirect
+          rw [hci] at hc'; cases hc'
+          have hsame := sameKey_sameClientAuth hconf hci hd hk hauth
+          cases hp : pipeline aesni cfgs name none with
+          | error n => rw [hsel, hp]
+          | plain => rw [hsel, hp]
+          | nothing => rw [hsel, hp]
+          | any =>
+            have := C06_failover_only_unmatched aesni cfgs name none hdomT hen hne hca hconf hp
+            rw [hw] at this; cases this
+          | cfg j' b =>
+            rw [hsel, hp]
+            simp only []
+            obtain ⟨hij, _⟩ := C06_sni_most_specific aesni cfgs name none hdomT hen hne hca hconf j' b hp
+            have := hij j hw
+            subst this
+            rw [hd]
+            simp [hsame]
+
+/-- What `_partial` excludes is real (confirmed on the code by stream `c06.connect`, known finding
+C06-vhost-only-catchall): sites `:443` (open) and `*:443` (client certificates required), a client
+using `b.a.com` as SNI and Host — routing reaches the `*` site through the fallback wildcarding
+before the empty host, the handshake is governed by the config of `:443`. -/
+theorem C06_clientauth_bypass_fails_witness :
+    let open_ : Cfg := ⟨[], true, 0, 0, [], [], false, 0, [], [], false⟩
+    let star : Cfg := ⟨[42], true, 0, 0, [], [], false, 4, [0], [], false⟩
+    let sites : List Casket.VHost.Site := [⟨[58, 52, 52, 51], false, []⟩, ⟨[42, 58, 52, 52, 51], false, [42]⟩]
+    (match connect true sites [open_, star] [98, 46, 97, 46, 99, 111, 109] [47] with
+      | (.cfg j _, .site i) => (j, i) | _ => (9, 9)) = (0, 1) ∧
+    crossVerdict [open_, star] (connect true sites [open_, star] [98, 46, 97, 46, 99, 111, 109] [47]) ≠ "ok" := by
+  decide
+
 /-- The defaults of the model are the ones in the source (regenerated on every run). -/
 theorem C06_defaults_regenerated :
     Casket.Generated.defaultCiphers = defaultCiphers ∧
@@ -413,6 +512,19 @@ example : (match pipeline true [exA, exAny] [98, 46, 111, 114, 103] none with | 
 
 /-- the repaired alias class: `:443` and `0.0.0.0:443` with different settings are now rejected -/
 example : pipeline true [exAny, { exA with hostname := host0000 }] [] none = .error 2 := by decide
+
+/-- the hypotheses of `C06_handshake_config_is_sites_config_partial` hold for sites `a.com:443`
+(client certificates) and `:443`, name `A.com` -/
+example :
+    let cfgs : List Cfg := [{ exA with clientCerts := [0] }, exAny]
+    let sites : List Casket.VHost.Site := [⟨[97, 46, 99, 111, 109, 58, 52, 52, 51], false, [97, 46, 99, 111, 109]⟩, ⟨[58, 52, 52, 51], false, []⟩]
+    let name : Bytes := [65, 46, 99, 111, 109]
+    cfgs.map (·.hostname) = sites.map (fun s => (Casket.VHost.keyOf s).1) ∧
+    Casket.VHostSpec.inDomain sites ⟨name, [47], 1⟩ = true ∧
+    normalizedName name = Casket.VHostSpec.normHost name ∧
+    Casket.VHostSpec.chosenKey sites ⟨name, [47], 1⟩ = some ([97, 46, 99, 111, 109], [47]) ∧
+    (match connect true sites cfgs name [47] with | (.cfg j _, .site i) => (j, i) | _ => (9, 9)) = (0, 0) := by
+  decide
 
 /-- TLS + plaintext on one listener -/
 example : mixed [exA, { exAny with enabled := false }] = true := by decide
